@@ -170,7 +170,7 @@ def validate_obs(traces, jobs=8, batch=150, keep_dir=None):
 # ---------------------------------------------------------------------------------------------
 # conformance: TraceImpl (the recorded trace replayed through the actions of Bubus.tla)
 # ---------------------------------------------------------------------------------------------
-_H_OPS = {'d', 'rd', 'y', 's', 'a', 'rb', 'raise', 'ret', 'g', 'logop', 'stop'}
+_H_OPS = {'d', 'rd', 'y', 's', 'a', 'rb', 'raise', 'ret', 'g', 'logop', 'stop', 'cl'}
 _D_OPS = {'d', 'rd', 'a', 'y', 's', 'idle', 'g', 'acc', 'stop', 'crl', 'expect', 'on'}
 
 
@@ -189,7 +189,7 @@ def impl_eligible(scn):
                     return False   # after its own stop() a handler may carry a pending cancellation: awaiting / raising then is not modelled
     for ops in scn['drivers']:
         for op in ops:
-            if op[0] not in _D_OPS or (op[0] == 'd' and len(op) > 3 and op[3]) or (op[0] == 'idle' and len(op) > 2 and op[2] is not None and op[2] < 1000) \
+            if op[0] not in _D_OPS or (op[0] == 'd' and len(op) > 3 and op[3]) \
                     or (op[0] == 'stop' and ((len(op) > 2 and op[2]) or (len(op) > 3 and op[3]))):
                 return False
     return True
